@@ -207,7 +207,7 @@ Section TallyQ.
 
   Local Notation NQ := (NumQ sq).
 
-  Definition reg (x : Q) : top NQ := @TReg NQ (@ONum Q x).
+  Definition reg (x : Q) : top NQ := @TReg NQ (@ONum (F NQ) x).
   (* the tally after registering exactly xs, in this order, from a fresh state *)
   Definition tally_of (xs : list Q) : tstate NQ := trun NQ (tinit NQ) (map reg xs).
 
@@ -354,4 +354,432 @@ Section TallyQ.
         * apply ltb_false in L. destruct Hmx as [Hin Hall]. split; [apply in_or_app; left; exact Hin |].
           apply Forall_app. split; [exact Hall | constructor; [exact L | constructor]].
   Qed.
+
+  (* ---------- running a whole sequence ---------- *)
+  Lemma trun_app : forall (N : Num) ops1 ops2 (s : tstate N),
+    trun N s (ops1 ++ ops2) = trun N (trun N s ops1) ops2.
+  Proof. induction ops1; intros; cbn [app trun]; [reflexivity | apply IHops1]. Qed.
+
+  Lemma acc_ok_n_nonneg : forall xs s, acc_ok xs s -> (0 <= tn s)%Z.
+  Proof. intros xs s H. rewrite (ok_n _ _ H). lia. Qed.
+
+  Lemma acc_ok_run : forall xs ys s, acc_ok ys s -> acc_ok (ys ++ xs) (trun NQ s (map reg xs)).
+  Proof.
+    induction xs as [| x xs IH]; intros ys s H.
+    - rewrite app_nil_r. exact H.
+    - cbn [map trun]. unfold reg at 1. cbn [tstep].
+      rewrite (tregister_valid s x (acc_ok_n_nonneg _ _ H)). cbn [state_of].
+      replace (ys ++ x :: xs) with ((ys ++ [x]) ++ xs) by (rewrite <- app_assoc; reflexivity).
+      apply IH. apply acc_ok_step. exact H.
+  Qed.
+
+  (* tally_moments: the accumulators are the textbook sums over exactly xs *)
+  Theorem tally_moments : forall xs, acc_ok xs (tally_of xs).
+  Proof. intros. apply (acc_ok_run xs [] (tinit NQ) acc_ok_init). Qed.
+
+  (* ---------- arbitrary histories: rejected observations, initialize ---------- *)
+  (* the observations that count: valid ones since the last initialize *)
+  Fixpoint effective (acc : list Q) (ops : list (top NQ)) : list Q :=
+    match ops with
+    | [] => acc
+    | TInit :: r => effective [] r
+    | TReg (ONum x) :: r => effective (acc ++ [x]) r
+    | TReg _ :: r => effective acc r
+    end.
+
+  Lemma tally_of_snoc : forall xs x,
+    tally_of (xs ++ [x]) = state_of (tregister NQ (tally_of xs) (ONum x)).
+  Proof.
+    intros. unfold tally_of. rewrite map_app, trun_app. reflexivity.
+  Qed.
+
+  Lemma run_effective_gen : forall ops acc,
+    trun NQ (tally_of acc) ops = tally_of (effective acc ops).
+  Proof.
+    induction ops as [| op ops IH]; intros acc; [reflexivity |].
+    destruct op as [o |]; cbn [trun tstep effective].
+    - destruct o as [x | | |]; cbn [tregister state_of]; try apply IH.
+      rewrite <- IH, tally_of_snoc. reflexivity.
+    - cbn [state_of]. apply (IH []).
+  Qed.
+
+  (* every reachable state is the state of a fresh tally fed exactly the
+     effective observations *)
+  Theorem run_effective : forall ops,
+    trun NQ (tinit NQ) ops = tally_of (effective [] ops).
+  Proof. intros. apply (run_effective_gen ops []). Qed.
+
+  (* ====================================================================== *)
+  (* Getters                                                                 *)
+  (* ====================================================================== *)
+  Definition res_is (g : res Q) (v : Q) : Prop := exists r, g = Val r /\ r == v.
+
+  Definition skew_b (xs : list Q) : Q :=
+    (central 3 xs / nQ xs) / (popvar xs * sq (popvar xs)).
+  Definition skew_u (xs : list Q) : Q :=
+    skew_b xs * sq (nQ xs * (nQ xs - 1)) / (nQ xs - 2).
+  Definition kurt_b (xs : list Q) : Q := central 4 xs / nQ xs / popvar xs / popvar xs.
+  Definition kurt_u (xs : list Q) : Q := central 4 xs / (nQ xs - 1) / samvar xs / samvar xs.
+  Definition exkurt_b (xs : list Q) : Q := kurt_b xs - 3.
+  Definition exkurt_u (xs : list Q) : Q :=
+    ((nQ xs - 1) / (nQ xs - 2) / (nQ xs - 3)) * ((nQ xs + 1) * exkurt_b xs + 6).
+
+  Local Instance sq_Proper : Proper (Qeq ==> Qeq) sq.
+  Proof. intros a b H. apply sq_proper. exact H. Qed.
+
+  Section Getters.
+    Variable xs : list Q.
+    Variable s : tstate NQ.
+    Hypothesis OK : acc_ok xs s.
+
+    Let Hn := ok_n _ _ OK.
+
+    Lemma nQ_tn : inject_Z (tn s) = nQ xs.
+    Proof. rewrite Hn. reflexivity. Qed.
+
+    Lemma nQ_tn1 : inject_Z (tn s - 1) == nQ xs - 1.
+    Proof. rewrite Hn. unfold nQ. unfold Zminus. rewrite inject_Z_plus. reflexivity. Qed.
+
+    Lemma popvar_nonneg : 0 <= popvar xs.
+    Proof.
+      unfold popvar, central. pose proof (csum2_nonneg (mean xs) xs). pose proof (nQ_nonneg xs).
+      destruct (Qeq_dec (nQ xs) 0) as [E | E].
+      - rewrite E. unfold Qdiv. change (/ 0) with 0. rewrite Qmult_0_r. apply Qle_refl.
+      - apply Qle_shift_div_l; lra.
+    Qed.
+
+    Lemma mean_spec :
+      (xs = [] -> g_mean NQ s = NaNres) /\ (xs <> [] -> res_is (g_mean NQ s) (mean xs)).
+    Proof.
+      unfold g_mean. split; intros H.
+      - subst xs. rewrite Hn. reflexivity.
+      - destruct (Z.ltb_spec 0 (tn s)) as [L | L].
+        + exists (tm1 s). split; [reflexivity | apply (ok_m1 _ _ OK)].
+        + destruct xs; [congruence | cbn [length] in Hn; lia].
+    Qed.
+
+    Lemma variance_b_spec :
+      (xs = [] -> g_variance NQ true s = NaNres) /\
+      (xs <> [] -> res_is (g_variance NQ true s) (popvar xs)).
+    Proof.
+      unfold g_variance. cbn [ofZ NumQ]. split; intros H.
+      - subst xs. rewrite Hn. reflexivity.
+      - destruct (Z.ltb_spec 0 (tn s)) as [L | L].
+        + rewrite nQ_tn. pose proof (nQ_pos xs H).
+          rewrite pdiv_val by lra. eexists; split; [reflexivity |].
+          unfold popvar. rewrite (ok_m2 _ _ OK). reflexivity.
+        + destruct xs; [congruence | cbn [length] in Hn; lia].
+    Qed.
+
+    Lemma variance_u_spec :
+      ((length xs < 2)%nat -> g_variance NQ false s = NaNres) /\
+      ((2 <= length xs)%nat -> res_is (g_variance NQ false s) (samvar xs)).
+    Proof.
+      unfold g_variance. cbn [ofZ NumQ]. split; intros H.
+      - destruct (Z.ltb_spec 1 (tn s)) as [L | L]; [lia | reflexivity].
+      - destruct (Z.ltb_spec 1 (tn s)) as [L | L]; [| lia].
+        pose proof (nQ_ge xs 2 H) as G. change (inject_Z (Z.of_nat 2)) with 2 in G.
+        pose proof nQ_tn1 as E1.
+        rewrite pdiv_val by (rewrite E1; lra). eexists; split; [reflexivity |].
+        unfold samvar. rewrite (ok_m2 _ _ OK), E1. reflexivity.
+    Qed.
+
+    Lemma samvar_popvar : (2 <= length xs)%nat -> samvar xs == popvar xs * nQ xs / (nQ xs - 1).
+    Proof.
+      intros H. pose proof (nQ_ge xs 2 H) as G. change (inject_Z (Z.of_nat 2)) with 2 in G.
+      unfold samvar, popvar. field. split; lra.
+    Qed.
+
+    Lemma samvar_pos_iff : (2 <= length xs)%nat -> (0 < samvar xs <-> 0 < popvar xs).
+    Proof.
+      intros H. pose proof (nQ_ge xs 2 H) as G. change (inject_Z (Z.of_nat 2)) with 2 in G.
+      rewrite (samvar_popvar H).
+      assert (P : 0 < nQ xs / (nQ xs - 1)) by (apply Qlt_shift_div_l; lra).
+      assert (E : popvar xs * nQ xs / (nQ xs - 1) == popvar xs * (nQ xs / (nQ xs - 1))) by (field; lra).
+      rewrite E. split; intros H0.
+      - destruct (Qlt_le_dec 0 (popvar xs)) as [|L]; [assumption |].
+        assert (popvar xs * (nQ xs / (nQ xs - 1)) <= 0) by nra. lra.
+      - apply Qmult_lt_0_compat; assumption.
+    Qed.
+
+    Lemma stdev_b_spec :
+      (xs = [] -> g_stdev NQ true s = NaNres) /\
+      (xs <> [] -> res_is (g_stdev NQ true s) (sq (popvar xs))).
+    Proof.
+      unfold g_stdev. destruct variance_b_spec as [A B]. split; intros H.
+      - rewrite (A H). reflexivity.
+      - destruct (B H) as [v [-> Ev]]. pose proof popvar_nonneg.
+        rewrite psqrt_val by lra. eexists; split; [reflexivity | rewrite Ev; reflexivity].
+    Qed.
+
+    Lemma samvar_nonneg : (2 <= length xs)%nat -> 0 <= samvar xs.
+    Proof.
+      intros H. pose proof (nQ_ge xs 2 H) as G. change (inject_Z (Z.of_nat 2)) with 2 in G.
+      unfold samvar, central. pose proof (csum2_nonneg (mean xs) xs).
+      apply Qle_shift_div_l; lra.
+    Qed.
+
+    Lemma stdev_u_spec :
+      ((length xs < 2)%nat -> g_stdev NQ false s = NaNres) /\
+      ((2 <= length xs)%nat -> res_is (g_stdev NQ false s) (sq (samvar xs))).
+    Proof.
+      unfold g_stdev. destruct variance_u_spec as [A B]. split; intros H.
+      - rewrite (A H). reflexivity.
+      - destruct (B H) as [v [-> Ev]]. pose proof (samvar_nonneg H).
+        rewrite psqrt_val by lra. eexists; split; [reflexivity | rewrite Ev; reflexivity].
+    Qed.
+
+    (* ---------- skewness ---------- *)
+    Lemma skewness_undefined : forall b : bool,
+      (length xs < (if b then 2 else 3))%nat \/ popvar xs == 0 -> g_skewness NQ b s = NaNres.
+    Proof.
+      intros b H. unfold g_skewness. cbn [ofZ NumQ zero mul sub].
+      destruct (Z.ltb_spec 1 (tn s)) as [L | L]; [| reflexivity].
+      assert (NE : xs <> []) by (intros ->; cbn in Hn; lia).
+      destruct (proj2 variance_b_spec NE) as [v [-> Ev]].
+      destruct (@ltb NQ (0:Q) v) eqn:P; [| reflexivity].
+      apply ltb_true in P.
+      destruct H as [H | H]; [| rewrite Ev in P; lra].
+      rewrite psqrt_val by lra.
+      destruct (@ltb NQ (0:Q) (v * sq v)); [| reflexivity].
+      rewrite nQ_tn. pose proof (nQ_pos xs NE).
+      rewrite pdiv_val by lra.
+      assert (0 < v * sq v) by (apply Qmult_lt_0_compat; [| apply sq_pos]; assumption).
+      rewrite pdiv_val by lra.
+      destruct b; [lia |].
+      destruct (Z.ltb_spec 2 (tn s)); [lia | reflexivity].
+    Qed.
+
+    Lemma skewness_b_defined :
+      (2 <= length xs)%nat -> 0 < popvar xs -> res_is (g_skewness NQ true s) (skew_b xs).
+    Proof.
+      intros H P. unfold g_skewness. cbn [ofZ NumQ zero mul sub].
+      destruct (Z.ltb_spec 1 (tn s)) as [L | L]; [| lia].
+      assert (NE : xs <> []) by (intros ->; cbn in Hn; lia).
+      destruct (proj2 variance_b_spec NE) as [v [-> Ev]].
+      assert (Pv : 0 < v) by (rewrite Ev; exact P).
+      rewrite (proj2 (ltb_true 0 v) Pv).
+      rewrite psqrt_val by lra.
+      assert (Pd : 0 < v * sq v) by (apply Qmult_lt_0_compat; [| apply sq_pos]; assumption).
+      rewrite (proj2 (ltb_true 0 (v * sq v)) Pd).
+      rewrite nQ_tn. pose proof (nQ_pos xs NE).
+      rewrite pdiv_val by lra. rewrite pdiv_val by lra.
+      eexists; split; [reflexivity |].
+      unfold skew_b. rewrite (ok_m3 _ _ OK), Ev. reflexivity.
+    Qed.
+
+    Lemma skewness_u_defined :
+      (3 <= length xs)%nat -> 0 < popvar xs -> res_is (g_skewness NQ false s) (skew_u xs).
+    Proof.
+      intros H P. unfold g_skewness. cbn [ofZ NumQ zero mul sub].
+      destruct (Z.ltb_spec 1 (tn s)) as [L | L]; [| lia].
+      assert (NE : xs <> []) by (intros ->; cbn in Hn; lia).
+      destruct (proj2 variance_b_spec NE) as [v [-> Ev]].
+      assert (Pv : 0 < v) by (rewrite Ev; exact P).
+      rewrite (proj2 (ltb_true 0 v) Pv).
+      rewrite psqrt_val by lra.
+      assert (Pd : 0 < v * sq v) by (apply Qmult_lt_0_compat; [| apply sq_pos]; assumption).
+      rewrite (proj2 (ltb_true 0 (v * sq v)) Pd).
+      rewrite nQ_tn. pose proof (nQ_pos xs NE).
+      rewrite pdiv_val by lra. rewrite pdiv_val by lra.
+      destruct (Z.ltb_spec 2 (tn s)); [| lia].
+      pose proof (nQ_ge xs 3 H) as G. change (inject_Z (Z.of_nat 3)) with 3 in G.
+      change (inject_Z 1) with 1. change (inject_Z 2) with 2.
+      assert (0 <= nQ xs * (nQ xs - 1)) by (apply Qmult_le_0_compat; lra).
+      rewrite psqrt_val by assumption.
+      rewrite pdiv_val by lra.
+      eexists; split; [reflexivity |].
+      unfold skew_u, skew_b. rewrite (ok_m3 _ _ OK), Ev. reflexivity.
+    Qed.
+
+    (* ---------- kurtosis ---------- *)
+    Lemma kurtosis_undefined : forall b : bool,
+      (length xs < (if b then 3 else 4))%nat \/ popvar xs == 0 -> g_kurtosis NQ b s = NaNres.
+    Proof.
+      intros b H. unfold g_kurtosis. cbn [ofZ NumQ zero].
+      destruct b.
+      - destruct (Z.ltb_spec 2 (tn s)) as [L | L]; [| reflexivity].
+        assert (NE : xs <> []) by (intros ->; cbn in Hn; lia).
+        rewrite nQ_tn. pose proof (nQ_pos xs NE).
+        rewrite pdiv_val by lra.
+        destruct (@ltb NQ (0:Q) (tm2 s / nQ xs)) eqn:P; [| reflexivity].
+        apply ltb_true in P. destruct H as [H | H]; [lia |].
+        unfold popvar in H. rewrite (ok_m2 _ _ OK) in P. lra.
+      - destruct (Z.ltb_spec 3 (tn s)) as [L | L]; [| reflexivity].
+        assert (H2 : (2 <= length xs)%nat) by lia.
+        destruct (proj2 variance_u_spec H2) as [v [-> Ev]].
+        destruct (@ltb NQ (0:Q) v) eqn:P; [| reflexivity].
+        apply ltb_true in P. destruct H as [H | H]; [lia |].
+        rewrite Ev in P. apply (samvar_pos_iff H2) in P. lra.
+    Qed.
+
+    Lemma kurtosis_b_defined :
+      (3 <= length xs)%nat -> 0 < popvar xs -> res_is (g_kurtosis NQ true s) (kurt_b xs).
+    Proof.
+      intros H P. unfold g_kurtosis. cbn [ofZ NumQ zero].
+      destruct (Z.ltb_spec 2 (tn s)) as [L | L]; [| lia].
+      assert (NE : xs <> []) by (intros ->; cbn in Hn; lia).
+      rewrite nQ_tn. pose proof (nQ_pos xs NE).
+      rewrite pdiv_val by lra.
+      assert (Ev : tm2 s / nQ xs == popvar xs) by (unfold popvar; rewrite (ok_m2 _ _ OK); reflexivity).
+      assert (Pv : 0 < tm2 s / nQ xs) by (rewrite Ev; exact P).
+      rewrite (proj2 (ltb_true 0 _) Pv).
+      rewrite !pdiv_val by lra.
+      eexists; split; [reflexivity |].
+      unfold kurt_b. rewrite Ev, (ok_m4 _ _ OK). reflexivity.
+    Qed.
+
+    Lemma kurtosis_u_defined :
+      (4 <= length xs)%nat -> 0 < popvar xs -> res_is (g_kurtosis NQ false s) (kurt_u xs).
+    Proof.
+      intros H P. unfold g_kurtosis. cbn [ofZ NumQ zero].
+      destruct (Z.ltb_spec 3 (tn s)) as [L | L]; [| lia].
+      assert (H2 : (2 <= length xs)%nat) by lia.
+      destruct (proj2 variance_u_spec H2) as [v [-> Ev]].
+      assert (Pv : 0 < v) by (rewrite Ev; apply (samvar_pos_iff H2); exact P).
+      rewrite (proj2 (ltb_true 0 v) Pv).
+      pose proof (nQ_ge xs 4 H) as G. change (inject_Z (Z.of_nat 4)) with 4 in G.
+      pose proof nQ_tn1 as E1.
+      rewrite pdiv_val by (rewrite E1; lra).
+      rewrite !pdiv_val by lra.
+      eexists; split; [reflexivity |].
+      unfold kurt_u. rewrite Ev, E1, (ok_m4 _ _ OK). reflexivity.
+    Qed.
+
+    (* ---------- excess kurtosis ---------- *)
+    Lemma excess_kurtosis_undefined : forall b : bool,
+      (length xs < (if b then 3 else 4))%nat \/ popvar xs == 0 -> g_excess_kurtosis NQ b s = NaNres.
+    Proof.
+      intros b H. unfold g_excess_kurtosis, g_excess_kurtosis_biased. cbn [ofZ NumQ zero add sub mul].
+      destruct b.
+      - destruct (Z.ltb_spec 2 (tn s)) as [L | L]; [| reflexivity].
+        rewrite (kurtosis_undefined true); [reflexivity |].
+        destruct H as [H | H]; [lia | right; exact H].
+      - destruct (Z.ltb_spec 3 (tn s)) as [L | L]; [| reflexivity].
+        destruct H as [H | H]; [lia |].
+        destruct (Z.ltb_spec 2 (tn s)) as [L2 | L2]; [| lia].
+        rewrite (kurtosis_undefined true) by (right; exact H).
+        assert (H4 : (4 <= length xs)%nat) by lia.
+        pose proof (nQ_ge xs 4 H4) as G. change (inject_Z (Z.of_nat 4)) with 4 in G.
+        rewrite nQ_tn. change (inject_Z 1) with 1. change (inject_Z 2) with 2. change (inject_Z 3) with 3.
+        rewrite !pdiv_val by lra. reflexivity.
+    Qed.
+
+    Lemma excess_kurtosis_b_defined :
+      (3 <= length xs)%nat -> 0 < popvar xs -> res_is (g_excess_kurtosis NQ true s) (exkurt_b xs).
+    Proof.
+      intros H P. unfold g_excess_kurtosis, g_excess_kurtosis_biased. cbn [ofZ NumQ zero add sub mul].
+      destruct (Z.ltb_spec 2 (tn s)) as [L | L]; [| lia].
+      destruct (kurtosis_b_defined H P) as [k [-> Ek]].
+      eexists; split; [reflexivity |]. unfold exkurt_b. rewrite Ek. reflexivity.
+    Qed.
+
+    Lemma excess_kurtosis_u_defined :
+      (4 <= length xs)%nat -> 0 < popvar xs -> res_is (g_excess_kurtosis NQ false s) (exkurt_u xs).
+    Proof.
+      intros H P. unfold g_excess_kurtosis, g_excess_kurtosis_biased. cbn [ofZ NumQ zero add sub mul].
+      destruct (Z.ltb_spec 3 (tn s)) as [L | L]; [| lia].
+      destruct (Z.ltb_spec 2 (tn s)) as [L2 | L2]; [| lia].
+      assert (H3 : (3 <= length xs)%nat) by lia.
+      destruct (kurtosis_b_defined H3 P) as [k [-> Ek]].
+      pose proof (nQ_ge xs 4 H) as G. change (inject_Z (Z.of_nat 4)) with 4 in G.
+      rewrite nQ_tn. change (inject_Z 1) with 1. change (inject_Z 2) with 2. change (inject_Z 3) with 3.
+      change (inject_Z 6) with 6.
+      rewrite !pdiv_val by lra.
+      eexists; split; [reflexivity |]. unfold exkurt_u, exkurt_b. rewrite Ek. reflexivity.
+    Qed.
+
+    (* ---------- confidence interval ---------- *)
+    Variable icdf : Q -> res Q.       (* statistics.NormalDist(0,1).inv_cdf, external *)
+    Hypothesis icdf_total : forall p, 0 < p -> p < 1 -> exists z, icdf p = Val z.
+
+    Definition ci_half (z : Q) : Q := z * sq (samvar xs / nQ xs).
+
+    Lemma ci_not_float : g_confidence_interval NQ icdf s (@ANotFloat NQ) = Raise TypeError.
+    Proof. reflexivity. Qed.
+
+    Lemma ci_alpha_out_of_range : forall a : Q, ~ (0 <= a /\ a <= 1) ->
+      g_confidence_interval NQ icdf s (@ANum NQ a) = Raise ValueError.
+    Proof.
+      intros a H. unfold g_confidence_interval, ci_head. cbn [leb NumQ zero ofZ].
+      destruct (Qle_bool 0 a) eqn:A; destruct (Qle_bool a (inject_Z 1)) eqn:B; cbn [andb negb]; try reflexivity.
+      apply Qle_bool_iff in A. apply Qle_bool_iff in B. change (inject_Z 1) with 1 in B. tauto.
+    Qed.
+
+    Lemma alpha_ok : forall a : Q, 0 <= a -> a <= 1 ->
+      negb (@leb NQ (0:Q) a && @leb NQ a (inject_Z 1)) = false.
+    Proof.
+      intros a A B. cbn [leb NumQ]. change (inject_Z 1) with 1.
+      rewrite (proj2 (Qle_bool_iff 0 a) A), (proj2 (Qle_bool_iff a 1) B). reflexivity.
+    Qed.
+
+    Lemma ci_undefined : forall a : Q, 0 <= a -> a <= 1 -> (length xs < 2)%nat ->
+      g_confidence_interval NQ icdf s (@ANum NQ a) = NaNres.
+    Proof.
+      intros a A B H. unfold g_confidence_interval, ci_head. cbn [zero ofZ NumQ isnan].
+      rewrite (alpha_ok a A B).
+      destruct (Nat.eq_dec (length xs) 0) as [E0 | E0].
+      - apply length_zero_iff_nil in E0. rewrite (proj1 mean_spec E0). reflexivity.
+      - assert (NE : xs <> []) by (intros E; apply E0; rewrite E; reflexivity).
+        destruct (proj2 mean_spec NE) as [m [-> _]].
+        rewrite (proj1 stdev_u_spec H). reflexivity.
+    Qed.
+
+    Lemma ci_defined : forall a : Q, 0 <= a -> a <= 1 -> (2 <= length xs)%nat ->
+      exists mn mx, tmin s = XFin mn /\ tmax s = XFin mx /\ is_min mn xs /\ is_max mx xs /\
+        (a == 0 -> g_confidence_interval NQ icdf s (@ANum NQ a) = Val (XFin mn, XFin mx)) /\
+        (0 < a -> exists z lo hi,
+           icdf (1 - a / 2) = Val z /\
+           g_confidence_interval NQ icdf s (@ANum NQ a) = Val (XFin lo, XFin hi) /\
+           lo == Qmax mn (mean xs - ci_half z) /\ hi == Qmin mx (mean xs + ci_half z)).
+    Proof.
+      intros a A B H.
+      assert (NE : xs <> []) by (intros E; rewrite E in H; cbn in H; lia).
+      pose proof (ok_min _ _ OK) as Hmn. pose proof (ok_max _ _ OK) as Hmx.
+      unfold min_ok in Hmn. unfold max_ok in Hmx.
+      destruct (tmin s) as [| | | mn] eqn:Emn; try contradiction.
+      destruct (tmax s) as [| | | mx] eqn:Emx; try contradiction.
+      exists mn, mx. repeat split; try reflexivity; try apply Hmn; try apply Hmx.
+      - intros Z. unfold g_confidence_interval, ci_head. cbn [zero ofZ NumQ isnan sub].
+        rewrite (alpha_ok a A B).
+        destruct (proj2 mean_spec NE) as [m [-> Em]].
+        destruct (proj2 stdev_u_spec H) as [sd [-> _]].
+        change (inject_Z 2) with 2. change (inject_Z 1) with 1.
+        rewrite pdiv_val by lra. cbn [leb NumQ].
+        assert (L : Qle_bool 1 (1 - a / 2) = true) by (apply Qle_bool_iff; rewrite Z; lra).
+        rewrite L, Emn, Emx. reflexivity.
+      - intros P.
+        assert (P0 : 0 < 1 - a / 2) by lra.
+        assert (P1 : 1 - a / 2 < 1) by lra.
+        destruct (icdf_total _ P0 P1) as [z Ez].
+        pose proof (nQ_ge xs 2 H) as G. change (inject_Z (Z.of_nat 2)) with 2 in G.
+        pose proof (samvar_nonneg H) as SV.
+        assert (QV : 0 <= samvar xs / nQ xs) by (apply Qle_shift_div_l; lra).
+        set (lo := mean xs - ci_half z). set (hi := mean xs + ci_half z).
+        unfold g_confidence_interval, ci_head. cbn [zero ofZ NumQ isnan sub].
+        rewrite (alpha_ok a A B).
+        destruct (proj2 mean_spec NE) as [m [-> Em]].
+        destruct (proj2 stdev_u_spec H) as [sd [-> _]].
+        change (inject_Z 2) with 2. change (inject_Z 1) with 1.
+        rewrite pdiv_val by lra. cbn [leb NumQ].
+        assert (L : Qle_bool 1 (1 - a / 2) = false).
+        { destruct (Qle_bool 1 (1 - a / 2)) eqn:E; [apply Qle_bool_iff in E; lra | reflexivity]. }
+        rewrite L. unfold ci_tail. cbn [ofZ NumQ mul sub add]. rewrite Ez.
+        destruct (proj2 variance_u_spec H) as [v [-> Ev]].
+        rewrite nQ_tn. rewrite pdiv_val by lra.
+        assert (QV' : 0 <= v / nQ xs) by (rewrite Ev; exact QV).
+        rewrite psqrt_val by exact QV'.
+        rewrite Emn, Emx. unfold pymax_x, pymin_x. cbn [x_lt_val x_gt_val].
+        assert (Eh : z * sq (v / nQ xs) == ci_half z) by (unfold ci_half; rewrite Ev; reflexivity).
+        destruct (@ltb NQ mn (m - z * sq (v / nQ xs))) eqn:L1;
+        destruct (@ltb NQ (m + z * sq (v / nQ xs)) mx) eqn:L2;
+          try apply ltb_true in L1; try apply ltb_false in L1;
+          try apply ltb_true in L2; try apply ltb_false in L2;
+          rewrite Eh, Em in L1, L2; do 3 eexists; (split; [reflexivity |]); (split; [reflexivity |]); split.
+        all: try (rewrite Eh, Em; symmetry; apply Q.max_r; unfold lo in *; lra).
+        all: try (symmetry; apply Q.max_l; lra).
+        all: try (rewrite Eh, Em; symmetry; apply Q.min_r; lra).
+        all: try (symmetry; apply Q.min_l; lra).
+    Qed.
+  End Getters.
 End TallyQ.
